@@ -49,6 +49,7 @@ const (
 	AFeedHoldReply // the reader reads call C's reply, looks up its waiter and is parked before handing it over
 	AFeedHoldStray // the same for a frame with wire id Wid
 	AReaderGo      // the parked reader goes on
+	AFeedReadReply // the reader's Read takes call C's reply off the connection and is parked before it returns (no lookup yet)
 	AFeedSplitReply // TCP: call C's reply arrives in two pieces (the body is cut; the reader has consumed the first piece)
 )
 
@@ -131,6 +132,8 @@ func (a Action) Coq() string {
 		return hx.App("AFeedHold", hx.App("FStray", hx.Ni(int(a.Wid)), hx.Ni(a.Tag)))
 	case AReaderGo:
 		return "AReaderGo"
+	case AFeedReadReply:
+		return hx.App("AFeedRead", hx.App("FReply", c, hx.Ni(a.Tag)))
 	case AFeedSplitReply:
 		return hx.App("AFeedSplit", hx.App("FReply", c, hx.Ni(a.Tag)))
 	}
@@ -179,6 +182,9 @@ type fakeConn struct {
 	closed   bool
 	errWithData bool // deliver readErr together with the bytes that empty the buffer
 	idleRead int // number of times Read was entered with nothing to deliver
+	holdRead   bool          // park the Read that takes the last byte of the buffer before it returns
+	readRel    chan struct{} // released by the executor
+	readParked chan struct{}
 	gated    map[int]bool
 	gates    map[int]chan error
 	writeEvs chan writeEv
@@ -188,7 +194,7 @@ type fakeConn struct {
 
 func newFakeConn(tcp bool) *fakeConn {
 	f := &fakeConn{tcp: tcp, gated: map[int]bool{}, gates: map[int]chan error{},
-		writeEvs: make(chan writeEv, 64), closeCh: make(chan struct{})}
+		writeEvs: make(chan writeEv, 64), closeCh: make(chan struct{}), readParked: make(chan struct{}, 1)}
 	f.cond = sync.NewCond(&f.mu)
 	return f
 }
@@ -213,6 +219,16 @@ func (f *fakeConn) Read(p []byte) (int, error) {
 		}
 		if f.errWithData && len(f.buf) == 0 && f.readErr != nil {
 			return n, f.readErr // as crypto/tls does when close_notify is already behind the data
+		}
+		if f.holdRead && len(f.buf) == 0 {
+			// the bytes are the reader's; it is descheduled before Read returns. Whatever happens to the
+			// connection meanwhile, this Read has succeeded.
+			f.holdRead = false
+			rel := f.readRel
+			f.mu.Unlock()
+			f.readParked <- struct{}{}
+			<-rel
+			f.mu.Lock()
 		}
 		return n, nil
 	}
@@ -334,6 +350,12 @@ func (f *fakeConn) lastArm() int {
 	return armKind(f.arms[len(f.arms)-1])
 }
 
+func (f *fakeConn) armCount() int {
+	f.mu.Lock()
+	defer f.mu.Unlock()
+	return len(f.arms)
+}
+
 func (f *fakeConn) armKinds() []int {
 	f.mu.Lock()
 	defer f.mu.Unlock()
@@ -398,7 +420,8 @@ const waitReturn = 3 * time.Second
 type View struct {
 	QidForced bool
 	TCP       bool
-	Parked    bool // the reader is parked between lookup and hand-over
+	Parked    bool // the reader is parked holding a frame
+	InRead    bool // … inside Read, before the lookup (otherwise between lookup and hand-over)
 	St        map[int]callState
 	Wid       map[int]uint16
 	Cancel    map[int]bool
@@ -436,14 +459,22 @@ func (v *View) registered(c int) bool { return v.In(c, csInWrite, csHeld, csWait
 // stray id matches no outstanding query).
 func (v *View) Applicable(a Action) bool {
 	if v.Parked {
-		// the reader holds a frame: nothing else can be read, and closing the connection under it is left
-		// to the schedules without a parked reader
+		// the reader holds a frame: nothing else can be read. Callers go on, and the connection may be
+		// closed under the reader (Close, a failing Write).
 		switch a.K {
 		case AReaderGo:
 			return true
-		case AReserve, AWithdraw, AStart, ARelease, ACancel, ASetQid:
+		case AReserve, AWithdraw, ARelease, ACancel, AClose:
+		case AStart, ASetQid:
+			// a wire id handed out while the frame is between Read and lookup must not be the frame's
+			// (scope clause of C01): excluded once the script has forced the id counter
+			if v.InRead && (v.QidForced || a.K == ASetQid) {
+				return false
+			}
 		case AWriteEnd:
-			if !a.Ok {
+			// a send that completes between Read and the reader's clearing of the waiting flag is left to
+			// the schedules that park the reader after the lookup
+			if v.InRead && a.Ok {
 				return false
 			}
 		default:
@@ -485,7 +516,7 @@ func (v *View) applicable0(a Action) bool {
 		// unless the script itself forced the id counter (test hook).
 		_, known := v.Wid[a.C]
 		return v.In(a.C, csDone) && known && (!v.QidForced || widFree(v.Wid[a.C], a.C))
-	case AFeedHoldReply:
+	case AFeedHoldReply, AFeedReadReply:
 		return v.applicable0(Action{K: AFeedReply, C: a.C, Tag: a.Tag})
 	case AFeedEofReply, AFeedSplitReply:
 		return v.TCP && v.applicable0(Action{K: AFeedReply, C: a.C, Tag: a.Tag})
@@ -553,7 +584,7 @@ func Run(s Script, next func(v *View) *Action) (Script, []Obs, Final) {
 	var holdReader atomic.Bool
 	readerParked := make(chan struct{}, 1)
 	var readerRel chan struct{}
-	parked := false
+	parked, inRead := false, false
 	verifhook.Set(func(name string) {
 		if name == "tdc.read.lookup" {
 			if holdReader.CompareAndSwap(true, false) {
@@ -631,7 +662,7 @@ func Run(s Script, next func(v *View) *Action) (Script, []Obs, Final) {
 	}
 
 	view := func() *View {
-		v := &View{St: map[int]callState{}, Wid: map[int]uint16{}, Cancel: map[int]bool{}, Closed: fc.isClosed(), Steps: len(s.Actions), QidForced: qidForced, TCP: s.TCP, Parked: parked}
+		v := &View{St: map[int]callState{}, Wid: map[int]uint16{}, Cancel: map[int]bool{}, Closed: fc.isClosed(), Steps: len(s.Actions), QidForced: qidForced, TCP: s.TCP, Parked: parked, InRead: parked && inRead}
 		fc.mu.Lock()
 		v.ReadErr = fc.readErr != nil
 		fc.mu.Unlock()
@@ -779,12 +810,38 @@ func Run(s Script, next func(v *View) *Action) (Script, []Obs, Final) {
 			if parked && a.K == AFeedHoldReply {
 				pendingReplied = a.C
 			}
+		case AFeedReadReply:
+			rel := make(chan struct{})
+			expectMu.Lock()
+			readerRel = rel
+			expectMu.Unlock()
+			fc.mu.Lock()
+			fc.holdRead, fc.readRel = true, rel
+			fc.mu.Unlock()
+			fc.feed(replyFrame(s.TCP, cr.wid, a.Tag))
+			select {
+			case <-fc.readParked:
+				parked, inRead = true, true
+				pendingReplied = a.C
+			case <-time.After(waitReturn):
+				fc.mu.Lock()
+				fc.holdRead = false
+				fc.mu.Unlock()
+			}
 		case AReaderGo:
 			expectMu.Lock()
 			rel := readerRel
 			expectMu.Unlock()
+			arms0 := fc.armCount()
 			close(rel)
-			parked = false
+			parked, inRead = false, false
+			if fc.isClosed() {
+				// the reader finishes its frame (it re-arms the idle deadline after the hand-over), then finds
+				// the connection closed
+				for t0 := time.Now(); fc.armCount() == arms0 && time.Since(t0) < waitReturn; {
+					time.Sleep(50 * time.Microsecond)
+				}
+			}
 			frameAfterSend = true // the reader re-arms the idle deadline now, after whatever was sent meanwhile
 			staleWaiting, sendWhileParked = sendWhileParked, false
 			if pendingReplied >= 0 {
